@@ -302,6 +302,24 @@ CLAIMED = {
         "technique": "explicit TLA+ specs (Resave.tla, Channels.tla) model-checked with TLC, deviant designs refuted; trace "
                      "validation of load/save generations on corpus, generated and TLC-built files",
     },
+    "C11": {
+        "domains": ["lazy"],
+        "text": "TLC checks Lazy.tla (a save modelled at the level of part names: writer order, first writer of a name wins) for "
+                "lazy = eager, valid file, unedited sheets kept, edits present and a save that always works, over every history "
+                "within the bounds of 1 edit (thorough: 2), one new sheet, one removal and one rename on 38 file shapes including "
+                "files whose sheet parts are not numbered in workbook order, and refutes three deviant designs (the recorded "
+                "findings). TLC-enumerated paths and TLC-simulated histories run on a lazily opened workbook and on its eagerly "
+                "opened twin, on generated files, on generated files re-ordered against their part numbers and on multi-sheet "
+                "corpus files; after every step every materialised sheet must show the twin's view (18 aspect digests); every "
+                "written file is decoded by an independent package validator and reloaded eagerly, and TLC judges each step.",
+        "note": TRUST + ", pydec/lazy_view.py, Debug renderings of public getter results as digests. A sheet still raw when saved "
+                        "must read back exactly like the original; a materialised sheet and the defined names are compared with "
+                        "the file the eager twin writes after the same history (losses of the eager save/load cycle belong to "
+                        "C01/C05/C06). Saves where the eager twin itself cannot be saved and reloaded are not judged (counted in "
+                        "the evidence). Histories never remove or rename a sheet that a chart of another sheet takes its data from.",
+        "technique": "explicit TLA+ spec (Lazy.tla) model-checked with TLC, three deviant designs refuted; TLC-generated and "
+                     "TLC-simulated histories replayed on the library (lazy workbook + eager twin); recorded traces validated by TLC",
+    },
 }
 
 NOT_CLAIMED = {}
